@@ -26,7 +26,56 @@ import keymaps  # noqa: E402
 
 LEVEL = "proof"
 
-MUTATION_DRILLS = []
+MUTATION_DRILLS = [
+ {
+  "mutation": "revert the repair: Context::DeleteCandidate writes selected_index = index unchecked (gen/eng_facts.py then yields DeleteUnchecked and C02_delete_guard_in_source fails as well)",
+  "ran": "scratch worktree /var/tmp/wt-eng at /repo HEAD + the mutation; VERIF_REPO=/var/tmp/wt-eng VERIF_CACHE=/var/tmp/rime-verif-eng bin/check C02 quick",
+  "exit": 1,
+  "printed": "VIOLATION property=C02 replay=replays/C02-quick-0.json",
+  "violation_keys": [
+   "wf:menu:after-del:stock",
+   "wf:menu:after-del:synth",
+   "wf:menu:after-delp:stock",
+   "wf:menu:after-delp:synth",
+   "wf:menu:after-getctx:synth",
+   "wf:menu:after-key+mod:synth",
+   "wf:menu:after-key:stock",
+   "wf:menu:after-key:synth"
+  ]
+ },
+ {
+  "mutation": "Context::Highlight: new_index = min(candidate_count, index) (accepts index == count)",
+  "ran": "scratch worktree /var/tmp/wt-eng at /repo HEAD + the mutation; VERIF_REPO=/var/tmp/wt-eng VERIF_CACHE=/var/tmp/rime-verif-eng bin/check C02 quick",
+  "exit": 1,
+  "printed": "VIOLATION property=C02 replay=replays/C02-quick-0.json",
+  "violation_keys": [
+   "wf:menu:after-caret:stock",
+   "wf:menu:after-caret:synth",
+   "wf:menu:after-del:stock",
+   "wf:menu:after-del:synth",
+   "wf:menu:after-delp:synth",
+   "wf:menu:after-getcommit:stock",
+   "wf:menu:after-getcommit:synth",
+   "wf:menu:after-getctx:synth"
+  ]
+ },
+ {
+  "mutation": "RimeGetContext: page_no = (selected_index + 1) / page_size",
+  "ran": "scratch worktree /var/tmp/wt-eng at /repo HEAD + the mutation; VERIF_REPO=/var/tmp/wt-eng VERIF_CACHE=/var/tmp/rime-verif-eng bin/check C02 quick",
+  "exit": 1,
+  "printed": "VIOLATION property=C02 replay=replays/C02-quick-0.json",
+  "violation_keys": [
+   "wf:menu:after-del:stock",
+   "wf:menu:after-del:synth",
+   "wf:menu:after-delp:stock",
+   "wf:menu:after-delp:synth",
+   "wf:menu:after-getcommit:synth",
+   "wf:menu:after-hl:stock",
+   "wf:menu:after-hl:synth",
+   "wf:menu:after-hlp:stock"
+  ]
+ }
+]
 
 
 def clause_of(d):
